@@ -69,6 +69,26 @@ def doc(desc, original, s):
         palin = toks[0] == "rep" or C11.rc(toks[1]) == toks[1]
         count = len(spans) if palin else len(occ)
         return dict(score=-count, breach={i for a, b in spans for i in range(a, b)}, region=True)
+    if k == "regex":
+        # "AvoidPattern: score = -(number of occurrences)", overlapping occurrences included: one per start position at
+        # which the expression matches, on the strand(s) of the location (both when the strand is 0)
+        import re
+        a, b, st = loc_of(desc, n)
+        rx = re.compile(desc["expr"])
+        sub = s[a:b]
+        spans = []
+        if st in (1, 0):
+            for i in range(len(sub)):
+                m = rx.match(sub, i)
+                if m:
+                    spans.append((a + i, a + m.end()))
+        if st in (-1, 0):
+            r = rc(sub)
+            for i in range(len(r)):
+                m = rx.match(r, i)
+                if m:
+                    spans.append((b - m.end(), b - i))
+        return dict(score=-len(spans), breach={i for x, y in spans for i in range(x, y)}, region=True)
     if k == "insert":
         loc = loc_of(desc, n)
         occ = occurrences(desc["pattern"], s, loc)
